@@ -8,8 +8,8 @@ import (
 	"strings"
 	"time"
 
-	gogotypes "github.com/cosmos/gogoproto/types"
 	sdk "github.com/cosmos/cosmos-sdk/types"
+	gogotypes "github.com/cosmos/gogoproto/types"
 
 	"github.com/regen-network/regen-ledger/x/data/v3"
 
@@ -24,10 +24,10 @@ type C16 struct{ counters }
 func (*C16) Name() string { return "C16" }
 
 type dataGhost struct {
-	id      map[string]string // iri -> id (hex) as first observed in state
-	anchor  map[string]int64  // iri -> first anchor time (unix nanos)
-	attest  map[string]int64  // iri|attestor -> first attestation time
-	reg     map[string]bool   // resolver id|iri
+	id     map[string]string // iri -> id (hex) as first observed in state
+	anchor map[string]int64  // iri -> first anchor time (unix nanos)
+	attest map[string]int64  // iri|attestor -> first attestation time
+	reg    map[string]bool   // resolver id|iri
 }
 
 func (g *dataGhost) Clone() explore.Ghost {
@@ -100,7 +100,9 @@ func (m *C16) OnStep(gh explore.Ghost, st *explore.Step) []V {
 	}
 	var out []V
 	now := st.Pre.Time.UnixNano()
-	bad := func(kind, detail string) { out = append(out, V{Kind: "C16/" + kind, Detail: detail + " [" + st.Act.Label + "]"}) }
+	bad := func(kind, detail string) {
+		out = append(out, V{Kind: "C16/" + kind, Detail: detail + " [" + st.Act.Label + "]"})
+	}
 	// anchoring side effect shared by all three messages: first anchoring sets the time
 	anchor := func(h irier) string {
 		iri, err := h.ToIRI() // naming function only (C15 checks it); permanence is what is checked here
@@ -192,7 +194,7 @@ func (m *C16) OnState(gh explore.Ghost, _ *chain.Chain, _ sdk.Context, s *chain.
 		if old, ok := g.id[d.Iri]; ok && old != h {
 			bad("id-of-iri-changed", fmt.Sprintf("%s: %s -> %s", d.Iri, old, h))
 		}
-		g.id[d.Iri] = h // ghost is cloned per transition; recording here keeps the first observed id
+		g.id[d.Iri] = h     // ghost is cloned per transition; recording here keeps the first observed id
 		if len(d.Id) >= 9 { // hash length of every injected digest is <= 8: longer ids carry the varint suffix
 			m.inc("ids_in_varint_fallback")
 		}
